@@ -150,6 +150,13 @@ func genC04(rt *rapid.T, transports []string) *c04Case {
 	if dirs&2 != 0 {
 		c.S2C = mk("s2c")
 	}
+	if len(c.C2S) > 0 && rapid.IntRange(0, 2).Draw(rt, "pcNoise") == 0 {
+		n := rapid.IntRange(1, 40).Draw(rt, "pcN")
+		for i := 0; i < n; i++ {
+			c.PC = append(c.PC, rapid.IntRange(0, 30).Draw(rt, "pcYields"))
+		}
+		c.PCDup = rapid.Bool().Draw(rt, "pcDup")
+	}
 	nd := rapid.IntRange(0, 5).Draw(rt, "ndelay")
 	for i := 0; i < nd; i++ {
 		c.Delay = append(c.Delay, rapid.IntRange(0, 20).Draw(rt, "delay"))
